@@ -46,12 +46,190 @@ pub fn run(sc: &Value) -> Value {
         }
     }
     let mut out = sc.as_object().unwrap().clone();
+    // abstraction function for non-lattice geometry (arbitrary control points, arcs, rotations):
+    // the true outline, evaluated here in f64 and quantised to 1/1024 px, with a bound on the
+    // distance between the quantised polyline and the true curve
+    if sc["quantize"].as_bool().unwrap_or(false) {
+        if kind == "stroke" {
+            // the tube oracle needs a similarity: half width in device 1/1024 px
+            let (subs, eps) = fine_stroke_subs(&sc["ops"], den as f64, &ctm);
+            let scale = ((ctm.m11 * ctm.m22 - ctm.m12 * ctm.m21).abs() as f64).sqrt();
+            let wd = num(&sc["style"]["width"]) as f64 / den_of(&sc["style"], "den", den) as f64;
+            out.insert("fsubs".into(), subs);
+            out.insert("feps".into(), json!(eps));
+            out.insert("fhw".into(), json!((wd * scale * 512.0).floor() as i64));
+            out.insert("fhw_slack".into(), json!(2));
+            let mut st = sc["style"].clone();
+            st["width"] = json!("f");
+            out.insert("style".into(), st);
+        } else {
+            let (loops, eps) = fine_loops(&sc["ops"], den as f64, &ctm);
+            out.insert("floops".into(), loops);
+            out.insert("feps".into(), json!(eps));
+        }
+        // TLC's JSON reader must not see the float arguments
+        out.insert("ops".into(), json!("f"));
+        out.insert("ctm".into(), json!("f"));
+    }
     out.insert("outcome".into(), json!(if r.is_ok() { "ok" } else { "panic" }));
     out.insert("pix".into(), pix(dt.get_data()));
     for (k, v) in extra {
         out.insert(k, v);
     }
     Value::Object(out)
+}
+
+/// The harness's own evaluation of a path (independent of lyon and of raqote): the PathSem cursor
+/// rules, curves sampled at 32 parameter steps, arcs on the exact circle; device points in
+/// 1/1024 px.  Returns the fill loops and the deviation bound (in 1/1024 px).
+pub fn fine_loops(ops: &Value, den: f64, ctm: &Transform) -> (Value, i64) {
+    let (subs, eps) = fine_subs(ops, den, ctm);
+    let js: Vec<Value> = subs.iter().map(|(l, _)| Value::Array(l.iter().map(|p| json!([p.0, p.1])).collect())).collect();
+    (Value::Array(js), eps)
+}
+
+/// Stroke view of the same outline: every subpath with its closed flag (a closed subpath gets its
+/// start appended), repeated points dropped, single points dropped.
+pub fn fine_stroke_subs(ops: &Value, den: f64, ctm: &Transform) -> (Value, i64) {
+    let (subs, eps) = fine_subs(ops, den, ctm);
+    let mut js = Vec::new();
+    for (l, closed) in subs {
+        let mut pts = l.clone();
+        if closed {
+            pts.push(l[0]);
+        }
+        pts.dedup();
+        if pts.len() >= 2 {
+            js.push(json!({"pts": pts.iter().map(|p| json!([p.0, p.1])).collect::<Vec<_>>(), "closed": closed}));
+        }
+    }
+    (Value::Array(js), eps)
+}
+
+fn fine_subs(ops: &Value, den: f64, ctm: &Transform) -> (Vec<(Vec<(i64, i64)>, bool)>, i64) {
+    const N: usize = 32;
+    let dev = |x: f64, y: f64| -> (f64, f64) {
+        (x * ctm.m11 as f64 + y * ctm.m21 as f64 + ctm.m31 as f64, x * ctm.m12 as f64 + y * ctm.m22 as f64 + ctm.m32 as f64)
+    };
+    let mut loops: Vec<(Vec<(f64, f64)>, bool)> = Vec::new();
+    let mut cur: Vec<(f64, f64)> = Vec::new();
+    let mut curp: Option<(f64, f64)> = None; // user space
+    let mut start: Option<(f64, f64)> = None;
+    let mut eps: f64 = 0.0;
+    let flush = |cur: &mut Vec<(f64, f64)>, loops: &mut Vec<(Vec<(f64, f64)>, bool)>, closed: bool| {
+        if cur.len() >= 2 {
+            loops.push((cur.clone(), closed));
+        }
+        cur.clear();
+    };
+    let g = |v: &Value| num(v) as f64;
+    for op in ops.as_array().unwrap() {
+        let k = op[0].as_str().unwrap();
+        let c = |i: usize| g(&op[i]) / den;
+        match k {
+            "M" => {
+                flush(&mut cur, &mut loops, false);
+                let p = (c(1), c(2));
+                cur.push(dev(p.0, p.1));
+                curp = Some(p);
+                start = Some(p);
+            }
+            "Z" => {
+                flush(&mut cur, &mut loops, true);
+                curp = start;
+                if let Some(s) = start {
+                    cur.push(dev(s.0, s.1));
+                }
+            }
+            "L" => {
+                let p = (c(1), c(2));
+                if curp.is_none() {
+                    start = Some(p);
+                }
+                if cur.is_empty() {
+                    if let Some(cp) = curp {
+                        cur.push(dev(cp.0, cp.1));
+                    }
+                }
+                cur.push(dev(p.0, p.1));
+                curp = Some(p);
+            }
+            "Q" | "C" => {
+                let pts: Vec<(f64, f64)> = if k == "Q" { vec![(c(1), c(2)), (c(3), c(4))] } else { vec![(c(1), c(2)), (c(3), c(4)), (c(5), c(6))] };
+                let p0 = curp.unwrap_or(pts[0]);
+                if curp.is_none() {
+                    start = Some(pts[0]);
+                }
+                if cur.is_empty() {
+                    cur.push(dev(p0.0, p0.1));
+                }
+                // device-space control polygon (affine invariance)
+                let mut ctl = vec![dev(p0.0, p0.1)];
+                for q in &pts {
+                    ctl.push(dev(q.0, q.1));
+                }
+                // deviation of an N-step polyline: |B''|max / (8 N^2)
+                let dd = |a: (f64, f64), b: (f64, f64), cc: (f64, f64)| ((a.0 - 2.0 * b.0 + cc.0).powi(2) + (a.1 - 2.0 * b.1 + cc.1).powi(2)).sqrt();
+                let b2 = if k == "Q" { 2.0 * dd(ctl[0], ctl[1], ctl[2]) } else { 6.0 * dd(ctl[0], ctl[1], ctl[2]).max(dd(ctl[1], ctl[2], ctl[3])) };
+                eps = eps.max(b2 / (8.0 * (N * N) as f64));
+                for i in 1..=N {
+                    let t = i as f64 / N as f64;
+                    let u = 1.0 - t;
+                    let p = if k == "Q" {
+                        (u * u * ctl[0].0 + 2.0 * u * t * ctl[1].0 + t * t * ctl[2].0, u * u * ctl[0].1 + 2.0 * u * t * ctl[1].1 + t * t * ctl[2].1)
+                    } else {
+                        (u * u * u * ctl[0].0 + 3.0 * u * u * t * ctl[1].0 + 3.0 * u * t * t * ctl[2].0 + t * t * t * ctl[3].0,
+                         u * u * u * ctl[0].1 + 3.0 * u * u * t * ctl[1].1 + 3.0 * u * t * t * ctl[2].1 + t * t * t * ctl[3].1)
+                    };
+                    cur.push(p);
+                }
+                curp = Some(*pts.last().unwrap());
+            }
+            "A" => {
+                // PathBuilder::arc(x, y, r, start, sweep): a line to the arc's start, then the arc
+                let (x, y, r) = (c(1), c(2), c(3));
+                let a0 = g(&op[4]);
+                let sw = g(&op[5]).max(-2.0 * std::f64::consts::PI).min(2.0 * std::f64::consts::PI);
+                let s0 = (x + r * a0.cos(), y + r * a0.sin());
+                if curp.is_none() {
+                    start = Some(s0);
+                }
+                if cur.is_empty() {
+                    if let Some(cp) = curp {
+                        cur.push(dev(cp.0, cp.1));
+                    }
+                }
+                cur.push(dev(s0.0, s0.1));
+                let steps = 96;
+                for i in 1..=steps {
+                    let a = a0 + sw * i as f64 / steps as f64;
+                    cur.push(dev(x + r * a.cos(), y + r * a.sin()));
+                }
+                // chord deviation of the sampled circle plus the 0.5 % radial tolerance of the arc approximation
+                let scale = ((ctm.m11 as f64).hypot(ctm.m12 as f64)).max((ctm.m21 as f64).hypot(ctm.m22 as f64));
+                let da = sw.abs() / steps as f64;
+                eps = eps.max(r * scale * (1.0 - (da / 2.0).cos()) + 0.005 * r * scale);
+                let a1 = a0 + sw;
+                curp = Some((x + r * a1.cos(), y + r * a1.sin()));
+            }
+            "R" => {
+                flush(&mut cur, &mut loops, false);
+                let (x, y, w, h) = (c(1), c(2), c(3), c(4));
+                cur.push(dev(x, y));
+                cur.push(dev(x + w, y));
+                cur.push(dev(x + w, y + h));
+                cur.push(dev(x, y + h));
+                flush(&mut cur, &mut loops, true);
+                curp = Some((x, y));
+                start = Some((x, y));
+                cur.push(dev(x, y));
+            }
+            _ => {}
+        }
+    }
+    flush(&mut cur, &mut loops, false);
+    let q = |v: f64| (v * 1024.0).round() as i64;
+    (loops.iter().map(|(l, c)| (l.iter().map(|p| (q(p.0), q(p.1))).collect(), *c)).collect(), (eps * 1024.0).ceil() as i64 + 2)
 }
 
 pub fn drive(_fam: &str, _seed: u64, _n: usize) -> Vec<Value> {
